@@ -493,7 +493,7 @@ func main() {
 		}
 	}
 	r.Set("typed_variants_castable_by_arrow", w.castable)
-	n := r.N(300, 4000)
+	n := r.N(300, 8000)
 	k := r.N(6, 30)
 	for i := 0; i < n; i++ {
 		c := genCase(r, i)
